@@ -15,7 +15,6 @@ The private dictionaries of the transform are read for ENUMERATION only (which t
 of them got a new id / executability): every property of an entry that the reference uses comes from
 the public accessors.
 """
-import os
 
 
 def universe(tt):
